@@ -93,6 +93,8 @@ type Exec struct {
 	opaque map[string]bool // functions to treat as opaque pure UFs
 
 	freshBase   map[string]int
+	entryState  *State
+	curSkolems  map[string]Value
 	specs       map[string]*SpecFunc
 	schemas     []*schema
 	curEnv      *Env
